@@ -480,9 +480,10 @@ class DatasetProcessor:
 
     @staticmethod
     def load_reference(reference, fai_file_name):
-        if not os.path.exists(fai_file_name):
+        if not os.path.exists(fai_file_name) or os.path.getmtime(fai_file_name) < os.path.getmtime(reference):
             # the index is built under a temporary name: an interrupted run must not leave a truncated index behind,
-            # pyfaidx would silently load the sequences listed in it
+            # pyfaidx would silently load the sequences listed in it; an index older than the reference would be rebuilt
+            # by pyfaidx in place, under the eyes of every other run that uses this reference
             tmp_fai_file_name = fai_file_name + "." + str(os.getpid()) + ".tmp"
             try:
                 Fasta(reference, indexname=tmp_fai_file_name).close()
